@@ -237,7 +237,7 @@ def write_replay(pid, scn, v, digest, orig_seed, tag):
     path = os.path.join(VERIF, "replays", "%s-%s.json" % (pid, tag))
     doc = {"property": pid, "seed": orig_seed, "violation": v, "digest": digest, "scenario": scn}
     with open(path, "w") as f:
-        json.dump(doc, f, indent=1, sort_keys=True, default=repr)
+        json.dump(doc, f, indent=1, default=repr)   # key order is significant (dict arguments)
     return path
 
 
